@@ -11,7 +11,7 @@ from harness.common import use_repo, MachineryError
 use_repo()
 from metapype.model.node import Node, Shift  # noqa: E402
 
-WATCHDOG_S = 3
+WATCHDOG_S = 5          # seconds of CPU time
 
 
 class OperationDidNotTerminate(Exception):
@@ -207,17 +207,18 @@ class World:
         import signal
 
         def on_alarm(signum, frame):
-            raise OperationDidNotTerminate(f"{name}{args} still running after {WATCHDOG_S}s")
-        old = signal.signal(signal.SIGALRM, on_alarm)
-        signal.alarm(WATCHDOG_S)
+            raise OperationDidNotTerminate(f"{name}{args} still running after {WATCHDOG_S}s of CPU time")
+        # CPU time of this process, not wall-clock: a loaded machine must never look like a hang
+        old = signal.signal(signal.SIGVTALRM, on_alarm)
+        signal.setitimer(signal.ITIMER_VIRTUAL, WATCHDOG_S)
         try:
             ret = self._apply(name, args)
             return True, ret, None
         except Exception as e:     # noqa: BLE001 - the harness records whatever escapes
             return False, 0, e
         finally:
-            signal.alarm(0)
-            signal.signal(signal.SIGALRM, old)
+            signal.setitimer(signal.ITIMER_VIRTUAL, 0)
+            signal.signal(signal.SIGVTALRM, old)
 
     def _apply(self, name, a):
         n = self.n
